@@ -144,10 +144,13 @@ class SidecarValidator:
         found_column_references = {}
         for column_data in sidecar:
             column_name = column_data.column_name
-            hed_strings = column_data.get_hed_strings()
+            # Look at the strings the rest of the validation will use, e.g. a value column that lacks its '#'
+            hed_strings = column_data._get_unvalidated_data().get_hed_strings()
             error_handler.push_error_context(ErrorContext.SIDECAR_COLUMN_NAME, column_name)
             matches = []
             for key_name, hed_string in hed_strings.items():
+                if not isinstance(hed_string, str):
+                    continue
                 new_issues = []
                 if len(hed_strings) > 1:
                     error_handler.push_error_context(ErrorContext.SIDECAR_KEY_NAME, key_name)
